@@ -134,6 +134,7 @@ int main(int argc, char** argv){
       else if(w[1]=="log") p->SetLogFileName(n.c_str()); else if(w[1]=="dump") p->SetDumpFileName(n.c_str());
       else if(w[1]=="sel") p->SetSelectedOutputFileName(n.c_str()); else std::cout<<"bad-op\n";
     }
+    else if(op=="write"){ std::ofstream f(hx::unhex(w[1]).c_str(), std::ios::binary); f<<hx::unhex(w[2]); std::cout<<"R write\n"; }
     else if(op=="views"){ views(p); std::cout<<"R views\n"; }
     else if(op=="get"){ // get n row col  : C++ accessor on user number n
       int save=p->GetCurrentSelectedOutputUserNumber(); p->SetCurrentSelectedOutputUserNumber(std::stoi(w[1]));
